@@ -161,6 +161,9 @@ def check_crop(spec, ctx):
     out = ctx.call(spec, f"crop_dim({kw})", arrays.crop_dim, arr, "time", **kw)
     ctx.unchanged(spec, "crop_dim: the input array", before, arr)
     renamed_agrees(ctx, spec, "crop_dim", arrays.crop_dim, arr, out, **kw)
+    # two threads cropping the same array to two ranges: this call is suspended at lines inside the library while the other runs
+    ident = lambda x, y: x.identical(y)  # noqa: E731
+    ctx.interleave(spec, "crop_dim", lambda: arrays.crop_dim(arr, "time", **kw), lambda: arrays.crop_dim(arr, "time", start=float(coords[0]), stop=float(coords[len(coords) // 2]), right_closed=True), same=ident, every=6, max_pauses=24)
     # positional form (documented order: arr, dim, start, stop, right_closed, left_closed) and numpy scalars
     pos = arrays.crop_dim(arr, "time", kw.get("start"), kw.get("stop"), kw.get("right_closed", False), kw.get("left_closed", True))
     nps = arrays.crop_dim(arr, "time", **{k: (np.float64(v) if isinstance(v, float) else v) for k, v in kw.items()})
@@ -244,6 +247,8 @@ def check_extend(spec, ctx):
     out = ctx.call(spec, f"extend_dim({kw})", arrays.extend_dim, arr, "time", **kw)
     ctx.unchanged(spec, "extend_dim: the input array", before, arr)
     renamed_agrees(ctx, spec, "extend_dim", arrays.extend_dim, arr, out, **kw)
+    ident = lambda x, y: x.identical(y)  # noqa: E731
+    ctx.interleave(spec, "extend_dim", lambda: arrays.extend_dim(arr, "time", **kw), lambda: arrays.extend_dim(arr, "time", start=float(coords[0]) - 2.5 * step, stop=float(coords[-1]) + 1.5 * step, fill_value=-FILL), same=ident, every=6, max_pauses=24)
     nps = arrays.extend_dim(arr, "time", **{k: (np.float64(v) if isinstance(v, float) else v) for k, v in kw.items()})
     if not nps.identical(out):
         ctx.fail("extend_dim called with numpy scalars differs from the call with Python floats", spec, None, None, kind="call_style")
